@@ -835,4 +835,19 @@ theorem restart_unknown_ends_at_step (c : Config) (s : State) (t1 t2 t3 : Nat) (
 example : (start (mkConfig .plain false 0 120 0 none none none none none none none) (init 10 0) 5 (some 0)).st.max = 0 :=
   (start_explicit_max _ _ _ 0).1
 
+/-- `finish_without_maximum` applied (hypothesis audit, round 10): a bar constructed without maximum, three steps made -/
+example := finish_without_maximum (mkConfig .plain false 0 120 0 none none none none none none none)
+  { init 0 0 with step := 3 } 5 rfl
+
+/-- the case condition is needed: with a maximum, `finish()` ends at the maximum, not at the step reached -/
+example : (finish (mkConfig .plain false 0 120 0 none none none none none none none) { init 10 0 with step := 3 } 5).st.step = 10 := by
+  decide +kernel
+
+/-- `start_explicit_frame` applied: `start(3)` on a bar constructed with maximum 10 draws the frame `0/3` -/
+example : ∃ f, (start (mkConfig .plain false 0 120 0 none none none none none none none) (init 10 0) 5 (some 3)).frame = some f ∧
+    f.current = 0 ∧ f.max = 3 := by
+  cases h : (start (mkConfig .plain false 0 120 0 none none none none none none none) (init 10 0) 5 (some 3)).frame with
+  | none => exact absurd h (by decide +kernel)
+  | some f => exact ⟨f, rfl, start_explicit_frame _ _ _ 3 f h⟩
+
 end Clikit.Props.C16
